@@ -33,9 +33,16 @@ def amps():
     psf = np.zeros((3, 3), np.float32)
     psf[1, 1] = 1
     r = FourierRenderer((16, 16), jnp.array(psf))
+    import interpax
     n_ax = np.asarray(r.n_ax, dtype=np.float64)
     tab = np.asarray(r.amps_n_ax, dtype=np.float64)
-    return {"n_ax": [frac(v) for v in n_ax], "amps": [[frac(v) for v in row] for row in tab], "dtype": str(np.asarray(r.amps_n_ax).dtype)}
+    # derivative estimates exactly as interp1d(..., method="cubic2") computes them
+    fx = np.asarray(interpax.approx_df(r.n_ax, r.amps_n_ax, "cubic2", 0), dtype=np.float64)
+    from fractions import Fraction
+    Fs = [sum(Fraction(float(v)) for v in row) for row in tab]
+    Ds = [sum(Fraction(float(v)) for v in row) for row in fx]
+    return {"n_ax": [frac(v) for v in n_ax], "row_sums": [[f.numerator, f.denominator] for f in Fs], "deriv_row_sums": [[d.numerator, d.denominator] for d in Ds],
+            "dtype": str(np.asarray(r.amps_n_ax).dtype), "n_sigma": int(r.n_sigma), "frac": [float(r.frac_start), float(r.frac_end)]}
 
 
 if __name__ == "__main__":
